@@ -102,7 +102,7 @@ TEXT = {
     level_note="Trusted: recording session, msize-forcing connection wrapper. The D14 wedge (>=5 concurrent callers over a zero-buffer connection) is a listed known finding, excluded by construction and probed separately (TestC09_ProbeD14).",
  ),
  "C10": dict(
-    technique="property-based testing (rapid) of both ends of version negotiation against scripted peers, followed by maximal-size traffic in both directions",
+    technique="property-based testing (rapid) of both ends of version negotiation against scripted peers (scripted handler, and a served Session whose own msize is below the agreed one), followed by maximal-size traffic in both directions",
     design_ref="DESIGN.md section 4, C10",
     level_text="Generated proposals/answers over the whole 32-bit range with boundary density; after the handshake the harness sends and provokes frames of exactly the agreed size and one byte more.",
     level_note="Trusted: refwire, scripted handler/peer.",
